@@ -865,7 +865,22 @@ _BTree_set(BTree *self, PyObject *keyarg, PyObject *value,
         }
         if (toobig) {
             if (BTree_grow(self, min, noval) < 0)
+            {
+#ifdef PERSISTENT
+                /* BTree_grow can fail after it has changed self:  the new
+                * child is in, and then splitting the (root) node fails.
+                * The tree is sound and holds the new key, so the change
+                * has to be announced like any other -- with the error put
+                * aside, because that runs the data manager's code.
+                */
+                PyObject *exc_type, *exc_value, *exc_tb;
+                PyErr_Fetch(&exc_type, &exc_value, &exc_tb);
+                if (PER_CHANGED(self) < 0)
+                    PyErr_Clear();
+                PyErr_Restore(exc_type, exc_value, exc_tb);
+#endif
                 goto Error;
+            }
             changed = 1;        /* BTree_grow mutated self */
         }
         goto Done;      /* and status still == 1 */
